@@ -11,6 +11,7 @@ import (
 	tsstypes "github.com/teleport-network/teleport/x/xibc/clients/tss-client/types"
 	xibctmtypes "github.com/teleport-network/teleport/x/xibc/clients/light-clients/tendermint/types"
 	clienttypes "github.com/teleport-network/teleport/x/xibc/core/client/types"
+	packetmodule "github.com/teleport-network/teleport/x/xibc/core/packet"
 	packettypes "github.com/teleport-network/teleport/x/xibc/core/packet/types"
 
 	"verif/internal/checks/c07"
@@ -174,8 +175,137 @@ func ListQueries(r *ev.Run) (evals int64) {
 			}
 		}
 	}
+	// the client list query names exactly the clients written, each under its own name
+	func() {
+		defer func() {
+			if rec := recover(); rec != nil && !bad {
+				bad = true
+				r.Violation("C19:list-query-does-not-answer-the-records-of-its-path/clients", fmt.Sprintf("ClientStates panics: %v", rec), nil)
+			}
+		}()
+		evals++
+		res, err := ck.ClientStates(gctx, &clienttypes.QueryClientStatesRequest{})
+		var got []string
+		if err == nil {
+			for _, c := range res.ClientStates {
+				got = append(got, c.ChainName)
+			}
+		}
+		sort.Strings(got)
+		want := append([]string{}, prefixNames...)
+		sort.Strings(want)
+		if !bad && (err != nil || fmt.Sprint(got) != fmt.Sprint(want)) {
+			bad = true
+			r.Violation("C19:list-query-does-not-answer-the-records-of-its-path/clients", fmt.Sprintf("ClientStates answers %v %v; clients written: %v", got, err, want), map[string]interface{}{"engine": "c19-queries"})
+		}
+	}()
+	// per-path point queries and the relayers' "what is still outstanding" queries
+	for _, a := range prefixNames {
+		for _, b := range prefixNames {
+			if a == b {
+				continue
+			}
+			has := map[uint64]string{}
+			for _, w := range written[a+"|"+b] {
+				has[w.seq] = w.val
+			}
+			var wantOut []uint64
+			for _, q := range []uint64{1, 2, 10} {
+				evals++
+				cres, cerr := pk.PacketCommitment(gctx, &packettypes.QueryPacketCommitmentRequest{SrcChain: a, DstChain: b, Sequence: q})
+				ares, aerr := pk.PacketAcknowledgement(gctx, &packettypes.QueryPacketAcknowledgementRequest{SrcChain: a, DstChain: b, Sequence: q})
+				v, ok := has[q]
+				if ok {
+					wantOut = append(wantOut, q)
+				}
+				okC := ok == (cerr == nil) && (!ok || string(cres.Commitment) == "c:"+v)
+				okA := ok == (aerr == nil) && (!ok || string(ares.Acknowledgement) == "a:"+v)
+				if !bad && (!okC || !okA) {
+					bad = true
+					r.Violation("C19:point-query-does-not-answer-the-record-of-its-triple", fmt.Sprintf("(%s,%s,%d): written=%v; PacketCommitment answers %v %v, PacketAcknowledgement answers %v %v", a, b, q, ok, cres, cerr, ares, aerr), map[string]interface{}{"engine": "c19-queries", "src": a, "dst": b, "sequence": q})
+				}
+			}
+			evals++
+			ures, uerr := pk.UnreceivedAcks(gctx, &packettypes.QueryUnreceivedAcksRequest{SrcChain: a, DstChain: b, PacketAckSequences: []uint64{1, 2, 10}})
+			if !bad && (uerr != nil || fmt.Sprint(ures.Sequences) != fmt.Sprint(append([]uint64{}, wantOut...))) {
+				bad = true
+				r.Violation("C19:outstanding-query-does-not-answer-the-records-of-its-path", fmt.Sprintf("UnreceivedAcks(%s,%s,[1 2 10]) answers %v %v; commitments written for this path: %v", a, b, ures, uerr, wantOut), map[string]interface{}{"engine": "c19-queries", "src": a, "dst": b})
+			}
+		}
+	}
 	if !bad {
 		r.Outcome(fmt.Sprintf("list queries: %d paths over %d prefix-related chain names answered exactly their own records", len(written), len(prefixNames)))
+	}
+	return evals
+}
+
+// ManyRecords: a chain holding a few hundred packet records (more than any page size a paginated walk would default to)
+// is exported and the export imported into a fresh chain: every receipt, acknowledgement, commitment and send counter
+// must still be there (the exactly-once guards of a restarted chain are only as good as its export).
+func ManyRecords(r *ev.Run, prop string) (evals int64) {
+	h := c07.NewHost()
+	ctx := h.Ctx(time.Unix(1_700_000_000, 0))
+	pk := h.C.App.XIBCKeeper.PacketKeeper
+	paths := [][2]string{{"chain-a", "teleport"}, {"chain-b", "teleport"}, {"teleport", "chain-a"}}
+	const n = 130
+	for pi, p := range paths {
+		for q := uint64(1); q <= n; q++ {
+			if pi == 1 && q%3 == 0 {
+				continue
+			}
+			pk.SetPacketReceipt(ctx, p[0], p[1], q)
+			pk.SetPacketAcknowledgement(ctx, p[0], p[1], q, []byte(fmt.Sprintf("a%d/%d", pi, q)))
+			pk.SetPacketCommitment(ctx, p[0], p[1], q, []byte(fmt.Sprintf("c%d/%d", pi, q)))
+		}
+		pk.SetNextSequenceSend(ctx, p[0], p[1], n+1)
+	}
+	var pan interface{}
+	fresh := c07.NewHost()
+	fctx := fresh.Ctx(time.Unix(1_700_000_000, 0))
+	func() {
+		defer func() { pan = recover() }()
+		g := packetmodule.ExportGenesis(ctx, pk)
+		if err := g.Validate(); err != nil {
+			panic(fmt.Sprintf("exported packet genesis fails its validation: %v", err))
+		}
+		packetmodule.InitGenesis(fctx, fresh.C.App.XIBCKeeper.PacketKeeper, g)
+	}()
+	if pan != nil {
+		r.Violation(prop+":packet-records-lost-by-export-and-import", fmt.Sprintf("export/import of %d records per path panics: %v", n, pan), nil)
+		return 1
+	}
+	fk := fresh.C.App.XIBCKeeper.PacketKeeper
+	lost := 0
+	first := ""
+	for pi, p := range paths {
+		for q := uint64(1); q <= n; q++ {
+			evals++
+			want := !(pi == 1 && q%3 == 0)
+			_, rc := fk.GetPacketReceipt(fctx, p[0], p[1], q)
+			ab, aok := fk.GetPacketAcknowledgement(fctx, p[0], p[1], q)
+			cb := fk.GetPacketCommitment(fctx, p[0], p[1], q)
+			ok := rc == want && aok == want && (len(cb) > 0) == want
+			if want && ok {
+				ok = string(ab) == fmt.Sprintf("a%d/%d", pi, q) && string(cb) == fmt.Sprintf("c%d/%d", pi, q)
+			}
+			if !ok {
+				lost++
+				if first == "" {
+					first = fmt.Sprintf("(%s,%s,%d): written=%v, after export and import receipt=%v ack=%q commitment=%q", p[0], p[1], q, want, rc, ab, cb)
+				}
+			}
+		}
+		if got := fk.GetNextSequenceSend(fctx, p[0], p[1]); got != n+1 {
+			lost++
+			if first == "" {
+				first = fmt.Sprintf("next send sequence of (%s,%s) is %d after export and import, was %d", p[0], p[1], got, n+1)
+			}
+		}
+	}
+	if lost > 0 {
+		r.Violation(prop+":packet-records-lost-by-export-and-import", fmt.Sprintf("%d of %d records differ after the packet module's export and import; first: %s", lost, 3*n, first), map[string]interface{}{"engine": "c19-many-records"})
+	} else {
+		r.Outcome(fmt.Sprintf("%d packet records per path survive export and import", n))
 	}
 	return evals
 }
